@@ -543,6 +543,7 @@ func C03(r *core.Run) {
 		scripts[s.Tok] = s
 	}
 	mu.Unlock()
+	c03NonInjecting(r, agentBin, md)
 	// second flavour: an h2c backend behind an agent started with --force-http2
 	h2done := make(chan struct{})
 	go func() {
@@ -795,4 +796,99 @@ func c03H2(r *core.Run, md *fakes.Metadata, serverBin, agentBin string) {
 	}
 	r.Add("h2_backend_responses", len(list))
 	judgeProcs(r, true, server, agent)
+}
+
+// c03NonInjecting: agent configurations that touch the websocket shim's flags
+// without enabling its script injection (and without banner or sessions):
+// HTML documents, with <head> in every position, must come through unaltered.
+func c03NonInjecting(r *core.Run, agentBin string, md *fakes.Metadata) {
+	configs := [][]string{
+		{"--shim-path=shim"},
+		{"--shim-path=shim", "--enable-websockets-injection=true"},
+		{"--shim-path=/shim/", "--rewrite-websocket-host=true", "--enable-websockets-injection=true"},
+		{"--enable-websockets-injection=true"},
+	}
+	docs := []string{
+		"<html><head><title>t</title></head><body>one</body></html>",
+		"<!doctype html>\n<HTML><head>\n<meta charset=utf-8></head><body><head>two</head></body></html>",
+		"<html>" + strings.Repeat(" ", 1500) + "<head></head><body>three</body></html>",
+		"<p>no head at all</p>",
+		"<html><head",
+		"",
+	}
+	backend, err := rawhttp.NewServer(func(req *rawhttp.Message, reqErr error, conn net.Conn, br *bufio.Reader) bool {
+		if reqErr != nil {
+			return false
+		}
+		k := 0
+		fmt.Sscanf(req.Target, "/doc/%d", &k)
+		body := docs[k%len(docs)]
+		var w rawhttp.Builder
+		w.Line("HTTP/1.1 200 OK").Field("Content-Type", []string{"text/html; charset=utf-8", "text/html", "application/xhtml+xml"}[k%3])
+		if k%2 == 0 {
+			w.Field("Content-Length", strconv.Itoa(len(body))).End()
+			w.WriteString(body)
+		} else {
+			w.Field("Transfer-Encoding", "chunked").End()
+			if len(body) > 3 {
+				w.Chunk([]byte(body[:3]))
+				w.Chunk([]byte(body[3:]))
+			} else if len(body) > 0 {
+				w.Chunk([]byte(body))
+			}
+			w.LastChunk(nil)
+		}
+		_, err := conn.Write(w.Bytes())
+		return err == nil
+	})
+	if err != nil {
+		r.Broken(err.Error())
+		return
+	}
+	defer backend.Close()
+	var wg sync.WaitGroup
+	for ci, cfg := range configs {
+		wg.Add(1)
+		go func(ci int, cfg []string) {
+			defer wg.Done()
+			px, err := fakes.NewProxy()
+			if err != nil {
+				r.Broken(err.Error())
+				return
+			}
+			defer px.Close()
+			px.ListWait = 30 * time.Millisecond
+			agent, err := startAgent(r, agentBin, fmt.Sprintf("agent-noninj%d", ci), md, px.URL(), backend.Addr(), fmt.Sprintf("b3n%d", ci), cfg...)
+			if err != nil {
+				r.Broken(err.Error())
+				return
+			}
+			defer agent.Kill()
+			for k := 0; k < 2*len(docs); k++ {
+				id := fmt.Sprintf("s%dnoninj%d-%d", r.Seed, ci, k)
+				var w rawhttp.Builder
+				w.Line(fmt.Sprintf("GET /doc/%d HTTP/1.1", k)).Field("Host", "c03.example").Field("Accept", "text/html").Field("Accept-Encoding", "identity").End()
+				px.Enqueue(id, w.Bytes(), "")
+				up, ok := px.Wait(id, 30*time.Second)
+				r.Case(fmt.Sprintf("non-injecting-config=%d|doc=%d|cl=%v", ci, k%len(docs), k%2 == 0))
+				if !ok || up.Resp == nil {
+					r.Inconclusive(fmt.Sprintf("non-injecting configuration %v: no response for document %d", cfg, k))
+					continue
+				}
+				if want := docs[k%len(docs)]; up.Resp.Status != 200 || string(up.Resp.Body) != want {
+					r.Violate("C03:body-altered:html-without-injection-enabled", fmt.Sprintf("agent flags %v enable neither banner nor shim-script injection, yet the HTML document %q reached the client as status %d, %d bytes (first difference at offset %d)", cfg, core.Trunc(want, 60), up.Resp.Status, len(up.Resp.Body), firstDiff([]byte(want), up.Resp.Body)), nil, nil)
+				}
+			}
+			judgeProcs(r, true, agent)
+		}(ci, cfg)
+	}
+	wg.Wait()
+}
+
+func firstDiff(a, b []byte) int {
+	i := 0
+	for i < len(a) && i < len(b) && a[i] == b[i] {
+		i++
+	}
+	return i
 }
